@@ -61,6 +61,19 @@ void harness(void)
     AC(init)(obj);
     CHECK(AC(setKey)(obj, sym_key, KEYLEN) == 1, "setKey accepts the class's key size");
     CHECK(AC(setIV)(obj, sym_iv, 16) == 1, "setIV accepts a 16-byte IV");
+#ifdef REKEY
+    /* key change in mid-stream without a new IV: the C library (and Cipher::setKey's own documentation: "any temporary data
+       that was being retained for encrypting partial blocks will be abandoned") continues with the next counter block under
+       the new key */
+    AC(encrypt)(obj, out, sym_in, N1);
+    CHECK(AC(setKey)(obj, sym_t1, KEYLEN) == 1, "second key accepted");           /* sym_t1/sym_t2 double as the second key */
+    AC(encrypt)(obj, out + N1, sym_in + N1, N2);
+    { static CKEY_T ks2; uint8_t k2[48]; memcpy(k2, sym_t1, 16); memcpy(k2 + 16, sym_t2, 16); memcpy(k2 + 32, sym_t1, 16);
+      CHECK(C_SET_KEY(&ks, sym_key, KEYLEN) == 1 && C_SET_KEY(&ks2, sym_t1, KEYLEN) == 1, "C library accepts the keys");
+      memcpy(c, sym_iv, 16);
+      for (unsigned k = 0; k < N1; k++) { if (k % 16 == 0) { C_ENC(e, c, &ks); vh_be_inc(c, 16); } CHECK(out[k] == (uint8_t)(sym_in[k] ^ e[k % 16]), "before the key change: E_K1(iv), ..."); }
+      for (unsigned k = 0; k < N2; k++) { if (k % 16 == 0) { C_ENC(e, c, &ks2); vh_be_inc(c, 16); } CHECK(out[N1 + k] == (uint8_t)(sym_in[N1 + k] ^ e[k % 16]), "after a key change in mid-stream the wrapper continues with the next counter block under the new key, as the C library does (no keystream of the old key is used)"); } }
+#else
     AC(encrypt)(obj, out, sym_in, N1); AC(encrypt)(obj, out + N1, sym_in + N1, N2);
     CHECK(C_SET_KEY(&ks, sym_key, KEYLEN) == 1, "C library accepts the key");
     memcpy(c, sym_iv, 16);
@@ -68,6 +81,7 @@ void harness(void)
         if (k % 16 == 0) { C_ENC(e, c, &ks); vh_be_inc(c, 16); }
         CHECK(out[k] == (uint8_t)(sym_in[k] ^ e[k % 16]), "CTR<T> output equals input xor E(iv), E(iv+1), ... as the C library's CTR mode defines it, however the data is split");
     }
+#endif
 #elif defined(OB_MANTIS)
     static MantisKey_t ks;
     A(init)(obj);
